@@ -1246,7 +1246,7 @@ func (NetH) Run(t *testing.T, c *hx.Case) *hx.Outcome {
 		common.CFG.TXRoute.Enabled, common.CFG.TXRoute.MaxTxWeight = true, 400000
 		common.CFG.WebUI.AllowedIP = "127.0.0.1"
 		common.CFG.Net.MaxInCons, common.CFG.Net.MaxOutCons = 20, 10
-		common.CFG.Net.MaxBlockAtOnce = 3 // the client's defaults (InitConfig)
+		common.CFG.Net.MaxBlockAtOnce = []uint32{3, 3, 2, 1}[cfg.SchedSeed%4] // the client's default (InitConfig) is 3; an operator may lower it
 		common.CFG.Memory.MaxCachedBlks, common.CFG.Memory.SyncCacheSize = 200, 500
 		common.CFG.TXPool.FeePerByte, common.CFG.TXRoute.FeePerByte = 0.001, 0.1
 		common.CFG.Stat.HashrateHrs, common.CFG.Stat.MiningHrs, common.CFG.Stat.FeesBlks = 12, 24, 24
